@@ -1322,6 +1322,15 @@ def main(repo: str, outdir: str, dry: bool = False) -> int:
         return (HEADER + "import Optyx.Py.BuildSupport\n\nset_option linter.unusedVariables false\n\n"
                 "namespace Optyx.Generated\nopen Optyx Optyx.Py\n\n" + body + "\nend Optyx.Generated\n")
 
+    def f_lpfast():
+        import py2lean_lpfast
+        try:
+            body = py2lean_lpfast.gen_lp_fast(src("analysis.py"))
+        except py2lean_lpfast.TranslateError as e:
+            raise TranslateError(str(e))
+        return (HEADER + "import Optyx.Py.Coeffs\n\nset_option linter.unusedVariables false\n\n"
+                "namespace Optyx.Generated\nopen Optyx Optyx.Py\n\n" + body + "\nend Optyx.Generated\n")
+
     def f_graditer():
         import py2lean_graditer
         try:
@@ -1373,7 +1382,7 @@ def main(repo: str, outdir: str, dry: bool = False) -> int:
                         ("ApiGlue", f_apiglue), ("LPGlue", f_lpglue), ("SortGlue", f_sort),
                         ("DegreeStep", f_degstep), ("GradStep", f_gradstep), ("LPStep", f_lpstep), ("JacRowVec", f_jacrowvec),
                         ("ScipyPost", f_scipypost), ("ProblemEdit", f_problemedit),
-                        ("ConstraintFns", f_constraintfns), ("SvsStep", f_svs), ("BuildStep", f_buildstep), ("Operators", f_operators), ("GradIterCtl", f_graditer)):
+                        ("ConstraintFns", f_constraintfns), ("SvsStep", f_svs), ("BuildStep", f_buildstep), ("Operators", f_operators), ("GradIterCtl", f_graditer), ("LPFast", f_lpfast)):
         path = os.path.join(outdir, fname + ".lean")
         try:
             text = make()
